@@ -253,16 +253,34 @@ type cbCount struct {
 	created int
 }
 
+// optFlip alternates between the two spellings of an option (mask / paths) from one call to the next, so
+// that the convenience wrappers are exercised as much as the options they wrap.
+var optFlip int
+
 func writeOptions(o wopts, cb *cbCount) []resource.WriteOption {
 	var ws []resource.WriteOption
+	optFlip++
+	paths := optFlip%2 == 0
 	if !o.M.Nil {
-		ws = append(ws, resource.WithUpdateMask(mini.ConcMask(o.M)))
+		if paths {
+			ws = append(ws, resource.WithUpdatePaths(mini.ConcMask(o.M).Paths...))
+		} else {
+			ws = append(ws, resource.WithUpdateMask(mini.ConcMask(o.M)))
+		}
 	}
 	if !o.R.Nil {
-		ws = append(ws, resource.WithResetMask(mini.ConcMask(o.R)))
+		if paths {
+			ws = append(ws, resource.WithResetPaths(mini.ConcMask(o.R).Paths...))
+		} else {
+			ws = append(ws, resource.WithResetMask(mini.ConcMask(o.R)))
+		}
 	}
 	if !o.Mm.Nil {
-		ws = append(ws, resource.WithMoreUpdateMask(mini.ConcMask(o.Mm)))
+		if paths {
+			ws = append(ws, resource.WithMoreUpdatePaths(mini.ConcMask(o.Mm).Paths...))
+		} else {
+			ws = append(ws, resource.WithMoreUpdateMask(mini.ConcMask(o.Mm)))
+		}
 	}
 	if o.Ev.Has {
 		ws = append(ws, resource.WithExpectedValue(mini.Conc(o.Ev.V)))
